@@ -492,6 +492,13 @@ impl FuChecker {
                 v.push(FuOp::ClosePos { u: A, id: "p-1".into(), partial: Some((0, 400)) });
                 v.push(FuOp::Advance { secs: DAY - 1 });
             }
+            "F5" => {
+                // explicit identifiers in every life-cycle stage: a closed-but-not-withdrawn one, an open one
+                v.push(FuOp::CreatePos { u: A, lp: 0, amount: 1000, dur: DAY, id: Some("1".into()), recv: None });
+                v.push(FuOp::CreatePos { u: A, lp: 0, amount: 7, dur: 100 * DAY, id: Some("k".into()), recv: None });
+                v.push(FuOp::ClosePos { u: A, id: "u-1".into(), partial: None });
+                v.push(pos(B, 0, 1000, DAY));
+            }
             _ => panic!("MACHINERY: unknown FU seed {name}"),
         }
         v
@@ -542,6 +549,9 @@ pub fn enabled(c: &FuChecker, w: &World, pre: &FuObs, g: &FuGhost) -> Vec<FuOp> 
                                     ops.push(pos(u, lp, amount, dur));
                                 }
                             }
+                            // explicit identifiers that collide with existing (open, closed, other users') positions
+                            ops.push(FuOp::CreatePos { u, lp, amount: 5, dur: DAY, id: Some("1".into()), recv: None });
+                            ops.push(FuOp::CreatePos { u, lp, amount: 5, dur: DAY, id: Some("k".into()), recv: None });
                         }
                         _ => {
                             ops.push(pos(u, lp, 1000, DAY));
